@@ -35,6 +35,7 @@ func genSession(t *rapid.T) Round {
 		}
 	}
 	r.P["conns"] = rapid.IntRange(1, 4).Draw(t, "conns")
+	r.P["hfault"] = rapid.IntRange(0, 3).Draw(t, "hfault")  // bit 1: an earlier cleanup handler fails, bit 2: it is slow
 	r.P["variant"] = rapid.IntRange(0, 1).Draw(t, "ticker") // 1: stale-connection ticker every 200us with a 1ns heartbeat timeout
 	r.P["login"] = rapid.IntRange(0, 1).Draw(t, "login")    // first connection is an authenticated control connection
 	return r
@@ -60,7 +61,10 @@ func runSession(r Round) *outcome {
 		}
 		srv.Cancel()
 	}()
-	var mine counter
+	var mine, faulty counter
+	if m := r.p("hfault"); m != 0 {
+		sm.AddCleanHandler(faultyHandler(m, &faulty))
+	}
 	sm.AddCleanHandler(func() error { mine.hit(); return nil })
 	var clients []*miniserver.Client
 	for i := 0; i < r.p("conns"); i++ {
@@ -140,6 +144,9 @@ func runSession(r Round) *outcome {
 	leaks := settle(sessionPrefixes, base, 2*time.Second)
 	if n := mine.get(); n != 1 {
 		o.failf("C16/session-manager/cleanup-handler-ran-"+times(n), "registered cleanup handler ran %d times", n)
+	}
+	if n := faulty.get(); r.p("hfault") != 0 && n != 1 {
+		o.failf("C16/session-manager/failing-or-slow-cleanup-handler-ran-"+times(n), "the cleanup handler registered before the counting one (fault mode %d) ran %d times", r.p("hfault"), n)
 	}
 	if !sm.IsClosed() {
 		o.failf("C16/session-manager/not-closed", "IsClosed()==false after Close")
